@@ -9,7 +9,8 @@ adversary, and the two pieces of state that outlive a connection: the sync.Pool 
       * every configuration pair without faults; one session x every fault at every point x every chunking
         (coverage: every action taken; termination); two sessions on the shared pool, every pooled choice
       * generation: counterexamples of the what-if models (release() forgets a field / the two it forgot before the
-        repair; the checker remembers verified payloads / peers) - each variant must yield some, i.e. TLC refutes it;
+        repair; the checker remembers verified payloads / peers; an oversized frame / unparsable payload is answered
+        with ack code Null) - each variant must yield some, i.e. TLC refutes it;
         every tampered frame against every mode combination; simulated two-session behaviours with faults
   phase B (one `go test`): every generated behaviour executed on real secureservice instances through the gated pipe
       (pooled object and checker instance as the behaviour says); random schedules recorded; proto negotiation;
@@ -87,8 +88,8 @@ def variants_present(d, field, wanted, what):
     seen = set()
     for fn in os.listdir(d):
         v = json.load(open(os.path.join(d, fn))).get(field)
-        seen.add(json.dumps(sorted(v) if isinstance(v, list) else v))
-    missing = [w for w in wanted if json.dumps(w) not in seen]
+        seen.add(json.dumps(sorted(v) if isinstance(v, list) else v, sort_keys=True))
+    missing = [w for w in wanted if json.dumps(w, sort_keys=True) not in seen]
     if missing:
         raise broken("%s: the model no longer refutes the variant(s) %s - the specification lost that piece of state" % (what, missing))
 
@@ -227,7 +228,8 @@ def run(ctx):
                      mc("pool", "HandshakeMC", "Handshake_mc_pool.cfg", timeout=3000),
                      mc("all configurations", "HandshakeMC", "Handshake_mc_cfgs.cfg", timeout=3000),
                      mc("pre-repair release()", "HandshakeMC", "Handshake_mc_asis.cfg", expect=("SuccessSound", "MutualGating")),
-                     mc("checker with memory", "HandshakeMC", "Handshake_mc_cache.cfg", expect=("ReplayRejected", "SuccessSound"))]
+                     mc("checker with memory", "HandshakeMC", "Handshake_mc_cache.cfg", expect=("ReplayRejected", "SuccessSound")),
+                     mc("error answered with ack Null", "HandshakeMC", "Handshake_mc_ackcode.cfg", expect=("CorruptionEndsBoth",))]
         else:
             jobs += [mc("pool", "HandshakeMC", "Handshake_mc_pool_q.cfg"),
                      mc("all configurations", "HandshakeMC", "Handshake_mc_cfgs_q.cfg")]
@@ -235,6 +237,7 @@ def run(ctx):
     # ---- generation
     jobs += [gen("residue", "HandshakeGen_residue_t.cfg" if thorough else "HandshakeGen_residue.cfg", timeout=3000),
              gen("checker-memory", "HandshakeGen_cache.cfg"),
+             gen("ack-code", "HandshakeGen_ackcode.cfg"),
              gen("tamper", "HandshakeGen_rep.cfg"),
              gen("sim", "HandshakeGen_sim.cfg", simulate=sim_n, depth=60),
              gen("sim2", "HandshakeGen_sim2.cfg", simulate=sim2_n, depth=60),
@@ -250,6 +253,7 @@ def run(ctx):
                      [AS_IS] + [sorted(set(["ack", "ctype", "pay", "ver", "cver"]) - {f}) for f in ("ack", "ctype", "pay", "ver", "cver")],
                      "forgotten resets")
     variants_present(byname["checker-memory"]["dir"], "cmode", ["payload", "peer"], "checker memory")
+    variants_present(byname["ack-code"]["dir"], "ackc", [{"over": 0, "bad": 1}, {"over": 1, "bad": 0}], "error -> ack code mapping")
     # (of the proto variants only "encodings not cleared" is exploitable without a fault)
     variants_present(byname["proto-residue"]["dir"], "resets", [["ack", "pt"]], "forgotten proto resets")
 
@@ -263,6 +267,7 @@ def run(ctx):
 
     plan = [replay("residue", "probe"),
             replay("checker-memory", "probe"),
+            replay("ack-code", "probe"),
             replay("tamper", VERIF_DEDUP="" if thorough else "1"),
             replay("sim"), replay("sim2")]
     if thorough:
